@@ -111,7 +111,7 @@ def _run_bin(ctx, binary, todo):
     with open(inp, "w") as f:
         for c in todo:
             f.write(json.dumps(c, separators=(",", ":")) + "\n")
-    env = vlib.goenv()
+    env = vlib.harness_env(ctx)
     env["VERIF_SEED"] = str(ctx.seed)
     try:
         with open(inp) as fin:
